@@ -7,6 +7,8 @@ package main
 import (
 	"bufio"
 	"bytes"
+	"crypto/sha1"
+	"encoding/hex"
 	"encoding/json"
 	"fmt"
 	"math/rand"
@@ -631,6 +633,32 @@ func (e *c10Env) invalidInputs(sc cases.ScanCase, repo *gitrepo.Repo, ri int, on
 			prep: func(dir string) (string, []string) {
 				return repo.Dir, []string{"GIT_CONFIG_COUNT=1", "GIT_CONFIG_KEY_0=" + kv[0], "GIT_CONFIG_VALUE_0=" + kv[1]}
 			}})
+	}
+	// an abbreviated object name that a commit and a blob share: git refuses it as ambiguous, and so must git-sizer
+	// (no guess at which one was meant). The blob is found by trying contents until its name starts with the same
+	// four digits as the first commit's, and is stored as an unreachable loose object in a copy of the repository.
+	{
+		chx := repo.Hex[model.Oid{K: "c", I: 1}]
+		abbr := chx[:4]
+		for i, args := range [][]string{{"--no-progress", "--json", abbr}, {"--no-progress", "refs/heads/main", abbr}} {
+			args := args
+			jobs = append(jobs, job{id: fmt.Sprintf("ambiguous-%d-%d", ri, i), setup: "ambiguous abbreviated ROOT: " + strings.Join(args, " "), args: args,
+				prep: func(dir string) (string, []string) {
+					d := copyRepo(dir)
+					for k := 0; k < 5000000; k++ {
+						content := []byte(fmt.Sprintf("ambiguous-%d\n", k))
+						h := sha1.Sum(append([]byte(fmt.Sprintf("blob %d\x00", len(content))), content...))
+						if hex.EncodeToString(h[:2]) == abbr {
+							if _, err := gitrepo.WriteLoose(gitDirOf(d), "blob", content); err != nil {
+								Infra("ambiguous blob: %v", err)
+							}
+							return d, nil
+						}
+					}
+					Infra("no blob found whose name starts with %s", abbr)
+					return d, nil
+				}})
+		}
 	}
 	// the report itself cannot be written (the disk is full): no run may claim success
 	for i, args := range [][]string{{"--no-progress"}, {"--no-progress", "-v"}, {"--no-progress", "--json"}, {"--no-progress", "--json", "--json-version=2"}} {
